@@ -260,6 +260,25 @@ def task_C15(tier, seed, arg):
                     continue
                 if not close(a, b, 1e-6, 1e-9):
                     R.violation("C15:stale_sample", "decay_time of a re-used Sample differs from a fresh Sample's", {"formula": ftxt, "exposure": exposure, "fluence": fl, "fraction": frac}, a, b)
+    # products whose computed activity is exactly zero (two-step captures at low fluence) must not disturb the solver
+    for ftxt, m, fl in (("Mg7Bi4Nd4", 0.0017728809482403136, 164134.38192332987), ("Mg", 1.0, 1e4), ("Co", 1e-3, 1e3), ("MgO", 1e-2, 1e5)):
+        s = act.Sample(ftxt, m)
+        s.calculate_activation(act.ActivationEnvironment(fluence=fl, Cd_ratio=1.0, fast_ratio=0.0), exposure=111.17, rest_times=rest)
+        A0 = sum(v[0] for v in s.activity.values())
+        zeros = sum(1 for v in s.activity.values() if v[0] == 0)
+        for frac in (1e-6, 1e-3, 0.5):
+            R.ok(1, ("zero-activity-product", ftxt, frac, zeros > 0))
+            try:
+                t = s.decay_time(A0 * frac)
+                tot = sum(v[0] * 2 ** (-t / k.Thalf_hrs) for k, v in s.activity.items())
+                if not close(tot, A0 * frac, 1.5e-3):
+                    R.violation("C15:zero_activity_product:accuracy", "returned time does not reach the target within 0.1%%", {"formula": ftxt, "fraction": frac}, tot, A0 * frac)
+            except RuntimeError:
+                pass
+            except Exception as e:
+                R.violation("C15:zero_activity_product:%s" % type(e).__name__, "decay_time raised %s (%s) for a sample with %d product(s) of zero "
+                            "computed activity; only RuntimeError may be raised" % (type(e).__name__, e, zeros),
+                            {"formula": ftxt, "mass": m, "fluence": fl, "fraction": frac})
     for ftxt, m in (("C", 1.0), ("C2H4", 1.0), ("H2O", 1e-3), ("Mn", 1e-12)):
         s = act.Sample(ftxt, m)
         s.calculate_activation(act.ActivationEnvironment(fluence=1e5), exposure=1, rest_times=rest)
